@@ -58,7 +58,11 @@ def gen_action(owner, nh, maxslot, style):
     else:
         w = [0.25, 0.25, 0.15, 0.35]
     k = rng.choices(["b", "u", "us", "e"], w)[0]
+    if rng.random() < 0.02:
+        k = "d"                      # drop the handlers' reference to the owner (the interpreter does it once)
     stats["act_" + k] += 1
+    if k == "d":
+        return "d"
     if k == "b":
         return "b:%d:%d:%d" % (pick_event(owner, True), pick_flags(), rng.randrange(nh))
     if k == "u":
@@ -132,8 +136,11 @@ def scenario():
         o += ["beh 0 0 0 us", "beh 0 1 0 us", "bind %d %d 0" % (ev, f()), "bind %d %d 1" % (ev, f()), "emit %d" % ev, "emit %d" % ev]
     elif fam == 2:    # one-shot and re-entrant emission
         o += ["beh 0 0 0 e:%d" % ev, "bind %d %d 0" % (ev, f()), "bind %d %d 1" % (ev, 8 | f()), "bind %d %d 2" % (ev, f()), "emit %d" % ev, "emit %d" % ev]
-    elif fam == 3:    # one-shot that re-emits its own event
-        o += ["beh 0 0 0 e:%d" % ev, "bind %d %d 0" % (ev, 8 | f()), "bind %d %d 1" % (ev, f()), "emit %d" % ev, "emit %d" % ev]
+    elif fam == 3:    # one-shot that re-emits its own event from its first invocation (mostly on the run_event path)
+        if owner == "term" and rng.random() < 0.7:
+            ev = 1
+        extra = rng.choice(["", " e:%d" % ev, " b:%d:%d:1" % (ev, f()), " us"])
+        o += ["beh 0 0 0 e:%d%s" % (ev, extra), "bind %d %d 0" % (ev, 8 | f()), "bind %d %d 1" % (ev, f()), "emit %d" % ev, "emit %d" % ev]
     elif fam == 4:    # bind (first / last) while iterating
         o += ["beh 0 0 0 b:%d:%d:1 b:%d:%d:2" % (ev, 1 | f(), ev, f()), "bind %d %d 0" % (ev, f()), "bind %d %d 1" % (ev, f()), "emit %d" % ev, "emit %d" % ev]
     elif fam == 5:    # unbind notification that unbinds / binds / emits
@@ -229,10 +236,10 @@ if a.tier == "exhaustive":
     bound = exhaustive()
 else:
     n_hist = 1500 if a.tier == "quick" else 10000
-    tail_histories = []
+    tail_histories, head_histories, body_histories = [], [], []
     for i in range(n_hist):
         r = rng.random()
-        if r < 0.004:
+        if r < 0.04:
             tail_histories.append(destroy_scenario())   # kept together at the end: on a tree without the emitter
             continue                                    # references they abort their batch of 64 histories
         elif r < 0.15:
@@ -240,9 +247,10 @@ else:
         elif r < 0.75:
             h = history("reentrant")
         else:
-            h = scenario()
-        lines.extend(h)
-    for h in tail_histories:
+            head_histories.append(scenario())           # the hand-shaped interleavings run first: a violation of a clause
+            continue                                    # is then reported before mere correspondence breaks
+        body_histories.append(h)
+    for h in head_histories + body_histories + tail_histories:
         lines.extend(h)
     stats["histories"] = n_hist
 
